@@ -139,6 +139,45 @@ func runC16(c *Ctx) {
 			}
 		}
 	}
+	// request server, big batches: the default batch of 100 entries (and one of 400) with names of 120..255 bytes, so that one
+	// NAME reply is far larger than a DATA reply ever is (50-150 KiB): every entry still arrives, once
+	for _, bc := range []struct{ batch, size, nameLen int }{{100, 100, 200}, {100, 250, 150}, {100, 99, 255}, {400, 400, 120}, {100, 201, 255}} {
+		sftp.MaxFilelist = int64(bc.batch)
+		for style := 0; style < 2; style++ {
+			var names []string
+			for i := 0; i < bc.size; i++ {
+				nme := fmt.Sprintf("e%04d", i)
+				names = append(names, nme+strings.Repeat("n", bc.nameLen-len(nme)))
+			}
+			var calls int32
+			h := listHandlers{l: scriptedLister{names: names, style: style, k: 0, calls: &calls}}
+			p, err := newPair(pairOpt{reqServer: true, handlers: sftp.Handlers{FileGet: h, FilePut: h, FileCmd: h, FileList: h}})
+			if err != nil {
+				c.Diag("pair: %v", err)
+				continue
+			}
+			got, lerr := p.Client.ReadDir("/d")
+			p.Close()
+			n := c.Case("reqbiglisting", kvi("n", bc.size), kvi("b", bc.batch), kvi("namelen", bc.nameLen), kvi("style", style))
+			c.NT(n)
+			ok, why := true, ""
+			if lerr != nil {
+				ok, why = false, "ReadDir failed: "+lerr.Error()
+			} else if len(got) != bc.size {
+				ok, why = false, fmt.Sprintf("directory of %d entries with %d-byte names (batch %d) listed as %d entries", bc.size, bc.nameLen, bc.batch, len(got))
+			} else {
+				for i, fi := range got {
+					if fi.Name() != names[i] || fi.Size() != int64(i) {
+						ok, why = false, fmt.Sprintf("entry %d is %q size %d", i, fi.Name(), fi.Size())
+						break
+					}
+				}
+			}
+			c.Oracle(n, ok, why)
+			c.Stat("request_server_big_batches")
+		}
+	}
+	sftp.MaxFilelist = saved
 	c16ExtListings(c)
 	c16OwnedListings(c)
 	c16LstatFailures(c)
